@@ -219,10 +219,21 @@ func cmdCheck(args []string) int {
 		if c.Trusted && len(c.SQLTexts)+len(c.ConstTexts) > 0 && hasProp(c.Props, *prop) {
 			if fn := P.FindFunc(c.PkgPath, c.Key); fn != nil {
 				reports = append(reports, CheckSQLPins(P, fn, c))
+				if len(labelledRequires(c)) > 0 {
+					reports = append(reports, CheckCallers(P, fn, c))
+				}
 			} else {
 				reports = append(reports, &FuncReport{Func: k, Key: c.Key, Error: "contract names a function that does not exist (#contract.target)"})
 			}
 			continue
+		}
+		if c.Trusted && len(labelledRequires(c)) > 0 && hasProp(c.Props, *prop) && (*only == "" || strings.Contains(k, *only)) {
+			if fn := P.FindFunc(c.PkgPath, c.Key); fn != nil {
+				rep := CheckCallers(P, fn, c)
+				mu.Lock()
+				reports = append(reports, rep)
+				mu.Unlock()
+			}
 		}
 		if c.Trusted || c.Pure && len(c.Ensures) == 0 {
 			continue
@@ -250,7 +261,7 @@ func cmdCheck(args []string) int {
 			reports = append(reports, rep)
 			continue
 		}
-		if len(c.OnlyCallers) > 0 {
+		if len(c.OnlyCallers) > 0 || len(labelledRequires(c)) > 0 {
 			rep := CheckCallers(P, fn, c)
 			mu.Lock()
 			reports = append(reports, rep)
